@@ -85,7 +85,9 @@ pub fn alphabet(k: usize) -> Joints {
         4 => [1.4, 1.0, 1.0, 0.9, 1.4, 0.9],   // a far corner
         // beyond +-pi on J1 and J6 (legal only for the limit set that reaches there; clamped to the range otherwise)
         5 => [3.6, 0.3, 0.3, 0.0, 0.5, 4.2],
-        _ => [0.9, 0.6, -0.1, 0.5, 0.2, -0.6],
+        6 => [0.9, 0.6, -0.1, 0.5, 0.2, -0.6],
+        7 => [0.6, 0.9, 0.9, -0.4, -0.8, 0.3],  // arm lowered: passes under / in front of the pillar
+        _ => [-0.4, 0.3, 0.3, 0.0, 0.5, 0.0],   // beyond the start, away from the goal
     }
 }
 
@@ -209,67 +211,141 @@ struct Explored {
     transitions: u64,
 }
 
-/// Tree exploration of sample sequences: run with a prefix (defaults after it); every position the run
-/// consumed beyond the prefix is a branching point for every non-default alphabet member.
-fn explore(s: &Scenario, k_alpha: usize, with_cancel: bool) -> Explored {
-    let cell = scenario_cell(s);
-    let robot = cell.robot();
-    let lim = cell.limits;
-    let mut out = Explored { executions: 0, fails: vec![], sigs: vec![], transitions: 0 };
-    let mut stack: Vec<Vec<usize>> = vec![vec![]];
-    while let Some(prefix) = stack.pop() {
-        let run = execute(s, &robot, &lim, &prefix, None);
-        out.executions += 1;
-        out.transitions += run.consumed_samples as u64;
-        let consumed = run.consumed_samples;
-        let case = |cancel: Option<usize>| json!({"scenario": {"layout": s.layout, "limits": s.limits, "step": s.step, "max_try": s.max_try, "pair": s.pair}, "samples": prefix, "cancel_at": cancel.map(|c| if c == usize::MAX { -1 } else { c as i64 })});
-        for (k, d) in judge(s, &robot, &lim, &run, None) {
-            out.fails.push((k, d, case(None)));
-        }
-        out.sigs.push(match &run.result {
-            Ok(p) => format!("ok:len{}:samples{}", p.len().min(60), consumed),
-            Err(e) => format!("err:{}:samples{}", e, consumed),
-        });
-        // replay determinism: the same script must give the same observation
-        if out.executions % 16 == 1 {
-            let again = execute(s, &robot, &lim, &prefix, None);
-            if format!("{:?}", again.result) != format!("{:?}", run.result) || again.consumed_samples != consumed {
-                out.fails.push(("C13/machinery/nondeterministic-replay".into(), "same script, different observation".into(), case(None)));
-            }
-        }
-        if with_cancel {
-            for k in 0..consumed.max(1) {
-                let r = execute(s, &robot, &lim, &prefix, Some(k));
-                out.executions += 1;
-                for (key, d) in judge(s, &robot, &lim, &r, Some(k)) {
-                    out.fails.push((key, d, case(Some(k))));
-                }
-                out.sigs.push(format!("cancel:{}", if r.result.is_ok() { "completed-before-next-poll" } else { "err" }));
-            }
-        }
-        for pos in prefix.len()..consumed {
-            for alt in 1..k_alpha {
-                let mut next = prefix.clone();
-                next.resize(pos, 0);
-                next.push(alt);
-                stack.push(next);
-            }
-        }
-    }
-    // cancellation before the call
-    let r = execute(s, &robot, &lim, &[], Some(usize::MAX));
+/// One node of the exploration tree: run the planner with `prefix` (defaults after it), judge it, inject the
+/// cancellations, and return the children: every position the run consumed beyond the prefix branches into
+/// every non-default alphabet member.
+fn explore_node(
+    s: &Scenario,
+    robot: &rs_opw_kinematics::kinematics_with_shape::KinematicsWithShape,
+    lim: &Limits,
+    k_alpha: usize,
+    with_cancel: bool,
+    prefix: &[usize],
+    out: &mut Explored,
+) -> Vec<Vec<usize>> {
+    let run = execute(s, robot, lim, prefix, None);
     out.executions += 1;
-    for (key, d) in judge(s, &robot, &lim, &r, Some(usize::MAX)) {
-        out.fails.push((key, d, json!({"scenario": {"layout": s.layout, "limits": s.limits, "step": s.step, "max_try": s.max_try, "pair": s.pair}, "samples": [], "cancel_at": -1})));
+    out.transitions += run.consumed_samples as u64;
+    let consumed = run.consumed_samples;
+    let case = |cancel: Option<usize>| json!({"scenario": {"layout": s.layout, "limits": s.limits, "step": s.step, "max_try": s.max_try, "pair": s.pair}, "samples": prefix, "cancel_at": cancel.map(|c| if c == usize::MAX { -1 } else { c as i64 })});
+    for (k, d) in judge(s, robot, lim, &run, None) {
+        out.fails.push((k, d, case(None)));
     }
-    out
+    out.sigs.push(match &run.result {
+        Ok(p) => format!("ok:len{}:samples{}", p.len().min(60), consumed),
+        Err(e) => format!("err:{}:samples{}", e, consumed),
+    });
+    // replay determinism: the same script must give the same observation (every node whose prefix sums to 0 mod 8)
+    if prefix.iter().sum::<usize>() % 8 == 0 {
+        let again = execute(s, robot, lim, prefix, None);
+        if format!("{:?}", again.result) != format!("{:?}", run.result) || again.consumed_samples != consumed {
+            out.fails.push(("C13/machinery/nondeterministic-replay".into(), "same script, different observation".into(), case(None)));
+        }
+    }
+    if with_cancel {
+        for k in 0..consumed.max(1) {
+            let r = execute(s, robot, lim, prefix, Some(k));
+            out.executions += 1;
+            for (key, d) in judge(s, robot, lim, &r, Some(k)) {
+                out.fails.push((key, d, case(Some(k))));
+            }
+            out.sigs.push(format!("cancel:{}", if r.result.is_ok() { "completed-before-next-poll" } else { "err" }));
+        }
+    }
+    if prefix.is_empty() {
+        // cancellation before the call
+        let r = execute(s, robot, lim, &[], Some(usize::MAX));
+        out.executions += 1;
+        for (key, d) in judge(s, robot, lim, &r, Some(usize::MAX)) {
+            out.fails.push((key, d, case(Some(usize::MAX))));
+        }
+    }
+    let mut children = Vec::new();
+    for pos in prefix.len()..consumed {
+        for alt in 1..k_alpha {
+            let mut next = prefix.to_vec();
+            next.resize(pos, 0);
+            next.push(alt);
+            children.push(next);
+        }
+    }
+    children
+}
+
+/// All scenarios are explored from one shared work queue by 16 plain OS threads (not rayon tasks: the planner's
+/// collision checks use rayon, and a pool thread waiting there could start another exploration task on the same
+/// thread, which would clobber the thread-local RNG script).
+fn explore_all(scs: &[(Scenario, usize, bool)]) -> Vec<Explored> {
+    use std::sync::Mutex;
+    let prepared: Vec<(rs_opw_kinematics::kinematics_with_shape::KinematicsWithShape, Limits)> = scs
+        .iter()
+        .map(|(s, _, _)| {
+            let cell = scenario_cell(s);
+            (cell.robot(), cell.limits)
+        })
+        .collect();
+    let queue: Mutex<Vec<(usize, Vec<usize>)>> = Mutex::new((0..scs.len()).rev().map(|i| (i, vec![])).collect());
+    let in_flight = AtomicUsize::new(0);
+    let results: Vec<Mutex<Explored>> = scs.iter().map(|_| Mutex::new(Explored { executions: 0, fails: vec![], sigs: vec![], transitions: 0 })).collect();
+    std::thread::scope(|sc| {
+        for _ in 0..16 {
+            sc.spawn(|| loop {
+                let task = {
+                    let mut q = queue.lock().unwrap();
+                    let t = q.pop();
+                    if t.is_some() {
+                        in_flight.fetch_add(1, Ordering::SeqCst);
+                    }
+                    t
+                };
+                match task {
+                    Some((i, prefix)) => {
+                        let (s, k, c) = &scs[i];
+                        let mut local = Explored { executions: 0, fails: vec![], sigs: vec![], transitions: 0 };
+                        let children = explore_node(s, &prepared[i].0, &prepared[i].1, *k, *c, &prefix, &mut local);
+                        {
+                            let mut r = results[i].lock().unwrap();
+                            r.executions += local.executions;
+                            r.transitions += local.transitions;
+                            r.sigs.extend(local.sigs);
+                            r.fails.extend(local.fails);
+                        }
+                        {
+                            let mut q = queue.lock().unwrap();
+                            for ch in children {
+                                q.push((i, ch));
+                            }
+                        }
+                        in_flight.fetch_sub(1, Ordering::SeqCst);
+                    }
+                    None => {
+                        if in_flight.load(Ordering::SeqCst) == 0 && queue.lock().unwrap().is_empty() {
+                            break;
+                        }
+                        std::thread::sleep(std::time::Duration::from_micros(200));
+                    }
+                }
+            });
+        }
+    });
+    results
+        .into_iter()
+        .map(|m| {
+            let mut e = m.into_inner().unwrap();
+            // deterministic report order whatever the thread interleaving was
+            e.fails.sort_by(|a, b| (a.0.as_str(), a.2.to_string()).cmp(&(b.0.as_str(), b.2.to_string())));
+            e.sigs.sort();
+            e.sigs.dedup();
+            e
+        })
+        .collect()
 }
 
 pub fn scenarios(thorough: bool) -> Vec<(Scenario, usize, bool)> {
     // (scenario, alphabet size, with cancellation enumeration)
     let mut v = Vec::new();
     let depth = if thorough { 6 } else { 5 };
-    let k = if thorough { 7 } else { 6 };
+    let k = if thorough { 9 } else { 6 };
     for layout in 0..3 {
         for limits in 0..4 {
             for step in [0.05, 0.3, 2.5] {
@@ -278,8 +354,8 @@ pub fn scenarios(thorough: bool) -> Vec<(Scenario, usize, bool)> {
                     if step == 0.05 && max_try > depth - 2 {
                         continue;
                     }
-                    // the deepest budget of the thorough tier only on the pillar layout with the middle step
-                    if thorough && max_try == depth && (layout != 1 || step != 0.3) {
+                    // the deepest budget of the thorough tier not with the finest step
+                    if thorough && max_try == depth && step == 0.05 {
                         continue;
                     }
                     v.push((Scenario { layout, limits, step, max_try, pair: 0 }, k, max_try <= 3));
@@ -295,24 +371,7 @@ pub fn scenarios(thorough: bool) -> Vec<(Scenario, usize, bool)> {
 
 pub fn run(ctx: &Ctx) -> Report {
     let scs = scenarios(!ctx.quick());
-    // Scenario exploration runs on plain OS threads, not inside the rayon pool: the planner's collision
-    // checks use rayon, and a pool thread waiting there may start another exploration task on the same
-    // thread, which would clobber the thread-local RNG script.
-    let next = AtomicUsize::new(0);
-    let slots: Vec<std::sync::Mutex<Option<Explored>>> = scs.iter().map(|_| std::sync::Mutex::new(None)).collect();
-    std::thread::scope(|sc| {
-        for _ in 0..16 {
-            sc.spawn(|| loop {
-                let i = next.fetch_add(1, Ordering::SeqCst);
-                if i >= scs.len() {
-                    break;
-                }
-                let (s, k, c) = &scs[i];
-                *slots[i].lock().unwrap() = Some(explore(s, *k, *c));
-            });
-        }
-    });
-    let results: Vec<Explored> = slots.into_iter().map(|m| m.into_inner().unwrap().expect("scenario explored")).collect();
+    let results: Vec<Explored> = explore_all(&scs);
     let mut rep = Report::new();
     for (i, e) in results.into_iter().enumerate() {
         rep.states += e.executions;
